@@ -5,29 +5,29 @@ From Morph Require Import Base.UStr Model.Terms Model.Data Model.Engine Model.Pa
    every data access function: materialising group by group and uniting the group results gives exactly the statements of
    materialising rule by rule ... *)
 Theorem grouping_irrelevant :
-  forall cfg rules get_data (lab : rule -> label) l1 l2,
-    materialize_grouped cfg rules get_data lab = Ok l1 -> materialize_rules cfg rules get_data = Ok l2 ->
+  forall cfg fe rules get_data (lab : rule -> label) l1 l2,
+    materialize_grouped cfg fe rules get_data lab = Ok l1 -> materialize_rules cfg fe rules get_data = Ok l2 ->
     forall x, In x l1 <-> In x l2.
 Proof. exact grouped_same_statements. Qed.
 Print Assumptions grouping_irrelevant.
 
 (* ... and fails exactly when that fails *)
 Theorem grouping_fails_iff :
-  forall cfg rules get_data (lab : rule -> label),
-    (exists e, materialize_grouped cfg rules get_data lab = Err e) <-> (exists e, materialize_rules cfg rules get_data = Err e).
+  forall cfg fe rules get_data (lab : rule -> label),
+    (exists e, materialize_grouped cfg fe rules get_data lab = Err e) <-> (exists e, materialize_rules cfg fe rules get_data = Err e).
 Proof. exact grouped_err_iff. Qed.
 Print Assumptions grouping_fails_iff.
 
 (* hence two labellings give the same statements *)
 Theorem modes_agree :
-  forall cfg rules get_data (lab1 lab2 : rule -> label) l1 l2,
-    materialize_grouped cfg rules get_data lab1 = Ok l1 -> materialize_grouped cfg rules get_data lab2 = Ok l2 ->
+  forall cfg fe rules get_data (lab1 lab2 : rule -> label) l1 l2,
+    materialize_grouped cfg fe rules get_data lab1 = Ok l1 -> materialize_grouped cfg fe rules get_data lab2 = Ok l2 ->
     forall x, In x l1 <-> In x l2.
 Proof.
-  intros cfg rules gd lab1 lab2 l1 l2 H1 H2 x.
-  destruct (materialize_rules cfg rules gd) as [l|e] eqn:E.
-  - rewrite (grouped_same_statements _ _ _ _ _ _ H1 E x). symmetry. exact (grouped_same_statements _ _ _ _ _ _ H2 E x).
-  - exfalso. assert (H : exists e, materialize_grouped cfg rules gd lab1 = Err e) by (apply grouped_err_iff; eauto).
+  intros cfg fe rules gd lab1 lab2 l1 l2 H1 H2 x.
+  destruct (materialize_rules cfg fe rules gd) as [l|e] eqn:E.
+  - rewrite (grouped_same_statements _ _ _ _ _ _ _ H1 E x). symmetry. exact (grouped_same_statements _ _ _ _ _ _ _ H2 E x).
+  - exfalso. assert (H : exists e, materialize_grouped cfg fe rules gd lab1 = Err e) by (apply grouped_err_iff; eauto).
     destruct H as (e' & H). congruence.
 Qed.
 Print Assumptions modes_agree.
